@@ -11,7 +11,8 @@ CONSTANTS
   DSeqs = {1, 11, 111}
   GSeqs = {1, 11, 111}
   OSeqs = {1, 11, 111}
-  MaxGroupsD = 12
+  MaxGroupsD = 16
+  MaxGroupsG = 8
 INIT Init
 NEXT Next
 INVARIANTS TypeOK InvPlacement InvSandbox InvLimits InvIngress InvEgress InvIngressOther InvEgressOther InvPositive InvComplete InvTornDown
